@@ -127,6 +127,8 @@ func init() {
 			{Name: "mismatch", Run: c16Mismatch},
 			{Name: "concurrent", Race: true, Run: c16Concurrent},
 			firstCallUnit(firstRegions),
+			firstParallelUnit(parRegions),
+			{Name: "bufreuse", Run: regionsReuse},
 			{Name: "many", TShards: 2, Run: c16Many},
 			{Name: "profiles", TShards: 4, Run: c16Profiles},
 		},
